@@ -5,7 +5,8 @@ from fractions import Fraction
 from common import Str, sx
 
 ID = 'C06'
-LEAN_MODULES = ['Cellml.Props.C06', 'Cellml.Tie.ConvertVarHelpers', 'Cellml.Tie.ConvertVarDriver', 'Cellml.Tie.ConvertVarWF', 'Cellml.Tie.GenDConvertVar', 'Cellml.Props.C06Gen']
+LEAN_MODULES = ['Cellml.Props.C06', 'Cellml.Tie.ConvertVarHelpers', 'Cellml.Tie.ConvertVarDriver', 'Cellml.Tie.ConvertVarWF', 'Cellml.Tie.GenDConvertVar', 'Cellml.Props.C06Gen',
+                'Cellml.Tie.ConvertVarE', 'Cellml.Tie.ConvertVarERefine', 'Cellml.Props.C06GenE']
 N = {'quick': 120, 'thorough': 2000}
 RULE = ('histories of 1-4 convert_variable calls on (a) five bundled example models (test_simple_odes, basic_ode, '
         'repeated_ode_for_conversion_tests, literals_for_conversion_tests, hodgkin_huxley 1952; about a quarter of the '
